@@ -80,7 +80,7 @@ def gen_coqproject():
         open(p, "w").write(txt)
 
 
-def coq_make(targets=None, timeout=3000, keep_going=False):
+def coq_make(targets=None, timeout=3000, keep_going=False, per_file_timeout=600):
     """Full .vo build of the whole development (or given targets). Returns (ok, log)."""
     with Lock("coq"):
         gen_coqproject()
@@ -90,7 +90,7 @@ def coq_make(targets=None, timeout=3000, keep_going=False):
             if rc != 0:
                 return False, out
         t = " ".join(targets) if targets else ""
-        rc, out = sh("make -j16 %s %s" % ("-k" if keep_going else "", t), cwd=COQ, timeout=timeout)
+        rc, out = sh("make -j16 COQC='timeout %d coqc' %s %s" % (per_file_timeout, "-k" if keep_going else "", t), cwd=COQ, timeout=timeout)
         return rc == 0, out
 
 
@@ -239,9 +239,8 @@ class Check:
     # -- proof side
     def proof_side(self, extra_dirs=()):
         """Build all proofs, scrape Properties.v. A failure here is a broken proof obligation."""
-        # build everything that builds (other properties' files must not mask this one), then
-        # decide on this property's own targets
-        coq_make(keep_going=True)
+        # build this property's own targets (make pulls in lib/gen dependencies); other properties'
+        # files are not touched, so a broken or slow file elsewhere cannot mask or stall this check
         tg = [os.path.relpath(os.path.join(dp, f), COQ) + "o" for d in [self.prop] + list(extra_dirs)
               for dp, _, fs in os.walk(os.path.join(COQ, d)) for f in fs
               if f.endswith(".v") and f != "Extract.v" and not f.startswith("Scratch")]
